@@ -33,7 +33,8 @@ RULE = ('operation scripts over hll_sketch registers and hll_union registers: in
         'target types, every mode (empty list, empty start_full_size HLL, list, set, HLL by promotion, HLL by start_full_size, results '
         'of another union incl. out-of-order ones), built from raw coupons (values 1..63, some >= 32) or real int64 items; unions of '
         'lg_max_k 4..10 (3 and 22 refused) fed <= 5 inputs by const& or by && with raw coupons / real items in between, '
-        'get_result(HLL_4/6/8), the four estimate accessors, the union accessors and reset interleaved; directed families: first '
+        'get_result(HLL_4/6/8), the four estimate accessors, the union accessors and reset interleaved; every estimator entry point '
+        '(estimate, composite, lower/upper bound 1..3) called first and called last on fresh copies of the union after every update; directed families: first '
         'input HLL with lg_k > lg_max_k followed by a second HLL input (F1), reset after a down-sampling input (F10), the same '
         'multiset of inputs presented to several unions in different orders and with different interleavings (permutation groups); '
         'non-trivial = the case down-sampled, swapped a list gadget with an HLL source, promoted the gadget, used the rvalue '
@@ -106,7 +107,9 @@ def mk_sketch(rng, ops, r, lgk, ty, mode, pool, cap):
 
 def rand_query(rng, ops, u, tags):
     x = rng.random()
-    if x < 0.45:
+    if x < 0.15:
+        ops.append([19, u]); tags.add('estimators-on-copies')
+    elif x < 0.45:
         ops.append([14, u, rng.randrange(3)])
     elif x < 0.75:
         ops.append([15, u, rng.randrange(4)]); tags.add('estimate-between')
@@ -115,6 +118,7 @@ def rand_query(rng, ops, u, tags):
 
 def final_queries(rng, ops, u):
     idx = []
+    ops.append([19, u])
     ops.append([17, u])
     ops.append([14, u, 2]); idx.append(len(ops) - 1)
     ops.append([14, u, rng.randrange(2)])
@@ -184,6 +188,24 @@ def gen(rng, tier):
         ops += [[11, 0, 2, 0], [11, 1, 2, 1]]
         g = [final_queries(rng, ops, 0)[0], final_queries(rng, ops, 1)[0]]
         add(ops, tags, 'f10_', groups=[g])
+
+    # ---- estimator entry points: every getter first / last on copies, after EVERY update, >= 2 HLL-mode inputs incl. down-sampling ----
+    for ci in range(12 if quick else 120):
+        lgmax = lgs[1 + ci % (len(lgs) - 2)]
+        ops = []; tags = {'estimators-on-copies', 'downsample'}; pool = []
+        big = rng.randrange(lgmax, lgs[-1] + 1); small = rng.randrange(4, lgmax)
+        plan = [(big, 'hll'), (rng.choice(lgs), rng.choice(['hll', 'hllfull'])), (small, 'hll'), (rng.choice(lgs), rng.choice(MODES))]
+        if ci % 3 == 1:
+            plan[0], plan[2] = plan[2], plan[0]
+        for r, (lgk, mode) in enumerate(plan):
+            mk_sketch(rng, ops, r, lgk, rng.randrange(3), mode, pool, cap)
+        ops += [[10, 0, lgmax], [19, 0]]
+        for r in range(len(plan)):
+            ops += [[11, 0, r, (ci + r) % 2], [19, 0]]
+            if r == 1:
+                ops += [[12, 0] + coupons(rng, rng.choice([1, 20, 200])), [19, 0]]
+        ops += [[14, 0, 2], [19, 0], [16, 0], [19, 0]]
+        add(ops, tags, 'est')
 
     # ---- random sequences ----
     for ci in range(70 if quick else 900):
@@ -269,6 +291,12 @@ def gen(rng, tier):
 # oracle
 # ---------------------------------------------------------------------------
 
+GETTERS = ['get_estimate()', 'get_composite_estimate()', 'get_lower_bound(1)', 'get_lower_bound(2)', 'get_lower_bound(3)',
+           'get_upper_bound(1)', 'get_upper_bound(2)', 'get_upper_bound(3)']
+
+def f64(bits):
+    return struct.unpack('<d', struct.pack('<Q', bits & (2**64 - 1)))[0]
+
 def parse_obs(R):
     if R == [-1] or len(R) < 6:
         return None
@@ -321,6 +349,24 @@ def oracle(case, irecs, mrecs):
             break
         if op[0] == 16 and irecs[i]['R'] == [1]:
             reset_seen.add(op[1])
+        if op[0] == 19:
+            F = irecs[i].get('F')
+            if irecs[i]['R'] == [1] and F and len(F) == 16:
+                first = F[0::2]; after = F[1::2]
+                bad = [g for g in range(8) if first[g] != after[g]]
+                if bad:
+                    g = bad[0]
+                    fails.append(dict(sig='estimate_depends_on_call_order',
+                                      what='hll_union::%s called first after the last update returns %r, called after the other estimator entry points %r'
+                                           % (GETTERS[g], f64(first[g]), f64(after[g])), op_index=i))
+                vals = [f64(x) for x in after]
+                est = vals[0]
+                for k in range(3):
+                    if not (vals[2 + k] <= est <= vals[5 + k]):
+                        fails.append(dict(sig='bounds_order', what='union: lower bound(%d) %r <= estimate %r <= upper bound(%d) %r violated'
+                                          % (k + 1, vals[2 + k], est, k + 1, vals[5 + k]), op_index=i))
+                        break
+            continue
         if op[0] not in (14, 17, 6):
             continue
         R = irecs[i]['R']; S = mrecs[i].get('S')
